@@ -59,7 +59,7 @@ def make_storage(kind, workdir):
 # ------------------------------------------------------------------ histories (C06, C08, C09 store level)
 
 def gen_history(rng, tier):
-    case = S.gen_case(rng, max_n=6, p_fail=0.15, runner=rng.choice(['l1', 'l1', 'serial']), ntypes=11)
+    case = S.gen_case(rng, max_n=6, p_fail=0.1, runner=rng.choice(['l1', 'l1', 'serial', 'serial', 'fork']), ntypes=11)
     case['pre'] = []
     case['storage'] = 'local'
     n = case['n']
@@ -68,15 +68,33 @@ def gen_history(rng, tier):
         r = rng.random()
         if r < 0.45:
             k = rng.randint(1, min(n, 3))
-            ops.append(['run', [[t, rng.choice([0, 0, 1])] for t in rng.sample(range(n), k)], rng.random() < 0.2, rng.random() < 0.8])
+            fails = sorted(rng.sample(range(n), rng.randint(1, min(n, 2)))) if rng.random() < 0.3 else []
+            ops.append(['run', [[t, rng.choice([0, 0, 1])] for t in rng.sample(range(n), k)], rng.random() < 0.25, rng.random() < 0.75, fails])
         elif r < 0.6:
             ops.append(['uncache', rng.sample(range(n), rng.randint(1, min(n, 3)))])
         elif r < 0.8:
             ops.append(['is_cached', rng.randrange(n)])
         else:
             ops.append(['cached', sorted(rng.sample(range(11), rng.randint(1, 4)))])
-    return dict(case=case, ops=ops, provider=rng.choice(['local', 'local', 'fsspec-local', 'fsspec-memory', 'null']),
-                seed=rng.randrange(1 << 30))
+    if rng.random() < 0.3 and n >= 2:
+        # directed pattern: a run that is abandoned at the first failure, then a run in which a dependency fails
+        # (state surviving the abandoned run must not leak into the next one)
+        everything = [[t, 0] for t in range(n)]
+        rng.shuffle(everything)
+        with_dependents = [d for d in range(n) if any(d in S.deps_of(case, t) for t in range(n))] or [0]
+        ops = [['run', everything, rng.random() < 0.3, False, [rng.randrange(n)]],
+               ['run', everything, rng.random() < 0.7, True, [rng.choice(with_dependents)]]] + ops[:3]
+    if case['runner'] == 'fork':
+        # a real worker saves its result on its own; when run_tasks raises at the first failure, results of workers whose
+        # completion was never processed are (legitimately) in the cache although the coordinator never saw them: the
+        # run-level model has no oracle for that, so process-runner histories always continue on failure
+        for op in ops:
+            if op[0] == 'run':
+                op[3] = True
+    provider = rng.choice(['local', 'local', 'fsspec-local', 'fsspec-memory', 'null'])
+    if provider == 'fsspec-memory' and case['runner'] == 'fork':
+        case['runner'] = 'serial'      # an in-memory filesystem written by a forked worker is not visible to the caller
+    return dict(case=case, ops=ops, provider=provider, seed=rng.randrange(1 << 30))
 
 
 def run_history(h):
@@ -89,21 +107,48 @@ def run_history(h):
         problems = []
         rng = random.Random(h['seed'])
         exec_counts = Counter()
+        faildir = os.path.join(workdir, 'fail')
+        os.makedirs(faildir, exist_ok=True)
+        os.environ['LV_FAILDIR'] = faildir
         for op in h['ops']:
             if op[0] == 'run':
+                for f in os.listdir(faildir):
+                    os.unlink(os.path.join(faildir, f))
+                for t in (op[4] if len(op) > 4 else []):
+                    open(os.path.join(faildir, f'fail_{t}'), 'w').close()
                 rec = S.Recorder(built.tid_of)
-                backend = S.L1Backend(rng, rec) if case['runner'] == 'l1' else S.SpyBackend(SerialRunnerBackend(), rec)
+                if case['runner'] == 'l1':
+                    backend = S.L1Backend(rng, rec)
+                elif case['runner'] == 'fork':
+                    from labtech.runners import ForkRunnerBackend
+                    backend = S.SpyBackend(ForkRunnerBackend(), rec)
+                else:
+                    backend = S.SpyBackend(SerialRunnerBackend(), rec)
                 lab = Lab(storage=storage, continue_on_failure=op[3], runner_backend=backend, notebook=False, context={})
                 req = [built.canon[t] if mode == 0 else built._fresh(t, mode) for t, mode in op[1]]
                 for o in req:
                     built.tid_of.setdefault(o, o.label)
                 was_cached = {t: lab.is_cached(built.canon[t]) for t in range(case['n'])}
+                _before = sorted(t for t, v in was_cached.items() if v)
                 try:
                     res = lab.run_tasks(req, bust_cache=op[2], disable_progress=True, disable_top=True)
                     outs.append(['returned', [[built.tid_of[k], v] for k, v in res.items()]])
                     for k, v in res.items():
                         if k.result_meta is None:
                             problems.append(('no-result-meta', f'requested task {built.tid_of[k]} returned without result_meta'))
+                        elif storage is not None and S.CACHEABLE[case['types'][built.tid_of[k]]]:
+                            sm = stored_meta(lab._storage, k)
+                            if sm is not None and (sm != (k.result_meta.start, k.result_meta.duration)):
+                                problems.append(('result-meta-differs', f'task {built.tid_of[k]} returned with result_meta {k.result_meta} but the entry stored for it records {sm}'))
+                    # C02: nothing may succeed on a dependency that failed in this very call
+                    fin = {e[1]: e[2] for e in rec.ev if e[0] == 'finish'}
+                    loaded_now = {e[1] for e in rec.ev if e[0] == 'submit' and e[2]}
+                    for t, v in fin.items():
+                        if v is not None and t not in loaded_now:
+                            found = S.flat_spec(case['specs'][t])
+                            bad = [found[i] for i in case['reads'][t] if found[i] in fin and fin[found[i]] is None]
+                            if bad:
+                                problems.append(('stale-read-of-failed-dep', f'task {t} computed a result in a run in which the dependencies {bad} it reads had failed'))
                 except S.Deadlock:
                     outs.append(['stuck'])
                 except LabError:
@@ -112,6 +157,14 @@ def run_history(h):
                 except BaseException as e:   # noqa
                     outs.append(['other', repr(e)[:200]])
                 oracles.append(rec.batches)
+                _after = sorted(t for t in range(case['n']) if lab.is_cached(built.canon[t]))
+                lost = [t for t in _before if t not in _after]
+                if lost:
+                    problems.append(('entry-lost-by-run', f'tasks {lost} were cached before a run_tasks call and are not cached after it (nothing uncached them)'))
+                ok_exec = {e[1] for e in rec.ev if e[0] == 'finish' and e[2] is not None}
+                extra = [t for t in _after if t not in _before and t not in ok_exec]
+                if extra and case['runner'] != 'fork':
+                    problems.append(('entry-appeared', f'tasks {extra} became cached in a run_tasks call in which they did not complete successfully'))
                 # C06 monitor: a task that was cached (and bust is off) must be loaded, not executed
                 for e in rec.ev:
                     if e[0] == 'submit' and not op[2] and was_cached[e[1]] and not e[2]:
@@ -155,7 +208,19 @@ def run_history(h):
         final = sorted(t for t in range(case['n']) if lab.is_cached(built.canon[t]))
         return dict(outs=outs, oracles=oracles, final=final, problems=problems)
     finally:
+        os.environ.pop('LV_FAILDIR', None)
         shutil.rmtree(workdir, ignore_errors=True)
+
+
+def stored_meta(storage, task):
+    """(start, duration) recorded in the entry's metadata file, read directly from the storage."""
+    try:
+        with storage.file_handle(task.cache_key, 'metadata.json', mode='r') as f:
+            md = json.load(f)
+        return (datetime.fromisoformat(md['start_timestamp']) if md.get('start_timestamp') else None,
+                timedelta(seconds=md['duration_seconds']) if md.get('duration_seconds') is not None else None)
+    except BaseException:   # noqa
+        return None
 
 
 def emit_history(h, obs):
@@ -166,7 +231,7 @@ def emit_history(h, obs):
     for op, out, orc in zip(h['ops'], obs['outs'], obs['oracles']):
         if op[0] == 'run':
             oracle = g_list([g_list([g_pair(t, g_nats(order)) for t, order in b]) for b in orc])
-            ops.append(f'LRun {g_nats([t for t, _ in op[1]])} {g_bool(op[2])} {g_bool(op[3])} {oracle}')
+            ops.append(f'LRun {g_nats([t for t, _ in op[1]])} {g_bool(op[2])} {g_bool(op[3])} {g_nats(op[4] if len(op) > 4 else [])} {oracle}')
         elif op[0] == 'uncache':
             ops.append(f'LUncache {g_nats(op[1])}')
         elif op[0] == 'is_cached':
@@ -207,8 +272,10 @@ def run_histories(prop, report, tier, seed, replay=None):
         dist[f"len={len(h['ops'])}"] += 1
         for out in obs['outs']:
             dist[f'out={out[0]}'] += 1
+        owner = {'entry-lost-by-run': 'C08', 'entry-appeared': 'C08', 'cached-but-executed': 'C06', 'no-result-meta': 'C06', 'result-meta-differs': 'C06', 'stale-read-of-failed-dep': 'C02',
+                 'foreign-task': 'C09', 'key-differs': 'C09', 'no-meta': 'C09', 'listed-twice': 'C09'}
         for sig, what in obs['problems']:
-            if (prop == 'C06') == (sig in ('cached-but-executed', 'no-result-meta')) or prop == 'C09' and sig in ('foreign-task', 'key-differs', 'no-meta', 'listed-twice'):
+            if owner.get(sig) == prop:
                 report.violation(f'{prop}:{sig}', what, dict(history=h))
         others = [o for o in obs['outs'] if o[0] == 'other']
         if others and prop == 'C08':
